@@ -1489,7 +1489,9 @@ class Field(SupportComplexDataType):
 
     def _get_children(self, trailing=False):
         if self.datatype == 'varies':
-            children = [self.children.indexes['VARIES_{0}'.format(i + 1)] for i in xrange(len(self.children))]
+            last_index = max([int(n[7:]) for n, c in iteritems(self.children.indexes)
+                              if c and _valid_child_name(n, 'VARIES')] or [0])
+            children = [self.children.indexes.get('VARIES_{0}'.format(i + 1)) for i in xrange(last_index)]
             children = _remove_trailing(children)
             children.extend([[c] for c in self.children if c.is_unknown()])
             return children
